@@ -38,7 +38,7 @@ ASSUMPTIONS = [
     "py-pde's solver, MemoryStorage and extract_field are trusted to hand identical fields to all trackers",
     "frames are compared by droplet class and parameter bytes, times by exact value",
 ]
-REQUIRED_MONITORS = {"call:DropletTracker.handle": 100, "post:equals-offline": 40, "post:forwarding": 100,
+REQUIRED_MONITORS = {"call:DropletTracker.handle": 100, "post:equals-offline": 40,
                      "post:file-roundtrip": 40, "post:length-scale-recorded": 100}
 MIN_NONTRIVIAL = 30
 
@@ -160,18 +160,33 @@ def run_direct(case, rec):
     if not ok:
         rec.evaluated(nontrivial=False)
         return
-    # forwarding observed directly
-    good = len(log) == len(fields)
-    for e, f in zip(log, fields):
-        kw = e["kwargs"]
-        got_field = e["args"][0] if e["args"] else kw.get("phase_field")
-        good = good and got_field is not None and np.array_equal(np.asarray(got_field.data), np.asarray(f.data))
-        good = good and _same_value(kw.get("threshold", 0.5), thr) and kw.get("refine", False) == o["refine"]
-        good = good and kw.get("modes", 0) == o["modes"] and _same_value(float(kw.get("minimal_radius", 0)), float(o["minimal_radius"]))
-        good = good and (kw.get("refine_args") or None) == (o.get("refine_args") or None)
-    rec.check(good, "forwarding",
-              f"locate_droplets inside handle was called {len(log)} times with kwargs "
-              f"{[{k: v for k, v in e['kwargs'].items()} for e in log[:2]]} - not the tracker's settings/fields; {label}")
+    # forwarding observed directly - an auxiliary observation: it is judged only when the wrapper
+    # on image_analysis.locate_droplets was reached exactly once per frame (a tracker that binds the
+    # function differently is not observable here; the property itself is decided by the
+    # comparison with the offline analysis below)
+    if len(log) != len(fields):
+        rec.count("forwarding_not_observable")
+    else:
+        import inspect
+
+        sig = inspect.signature(ia.locate_droplets)
+        good = True
+        for e, f in zip(log, fields):
+            try:
+                ba = sig.bind(*e["args"], **e["kwargs"])
+                ba.apply_defaults()
+                kw = ba.arguments
+            except TypeError:
+                good = False
+                break
+            got_field = kw.get("phase_field")
+            good = good and got_field is not None and np.array_equal(np.asarray(got_field.data), np.asarray(f.data))
+            good = good and _same_value(kw.get("threshold", 0.5), thr) and bool(kw.get("refine", False)) == o["refine"]
+            good = good and kw.get("modes", 0) == o["modes"] and _same_value(float(kw.get("minimal_radius", 0)), float(o["minimal_radius"]))
+            good = good and (kw.get("refine_args") or None) == (o.get("refine_args") or None)
+        rec.check(good, "forwarding",
+                  f"locate_droplets inside handle was called with {[{k: v for k, v in e['kwargs'].items()} for e in log[:2]]} "
+                  f"- not the tracker's settings/fields; {label}")
     # offline analysis of the same stored fields
     storage = MemoryStorage.from_fields(times=times, fields=fields)
     kwargs = {"threshold": thr, "minimal_radius": o["minimal_radius"], "refine": o["refine"], "modes": o["modes"], "progress": False}
